@@ -371,14 +371,15 @@ var c05Layouts = []string{
 func scnUGMReserve(name string) *world.Scenario {
 	s := scnUGM(name, []string{c05Conf("", "", "u u1 3 -", "")}, []string{"SCHEDULE", "ASK", "ASK_BOUND", "RELEASE"}, nil)
 	s.Reserve = true
-	s.Nodes = []world.NodeSpec{{ID: "n1", Cap: world.M(2)}, {ID: "n2", Cap: world.M(2)}}
+	// n3 is registered drained: it adds cluster (root queue) headroom but cannot take the ask, so the ask is reserved
+	s.Nodes = []world.NodeSpec{{ID: "n1", Cap: world.M(2)}, {ID: "n2", Cap: world.M(2)}, {ID: "n3", Cap: world.M(1)}}
 	s.Asks = []world.AskSpec{
 		{Key: "a1", App: "app1", Res: world.M(2), Create: 1001},
 		{Key: "c1", App: "app3", Res: world.M(2), Create: 1002},
 		{Key: "x1", App: "app1", Res: world.M(1), Create: 1003},
 		{Key: "a3", App: "app1", Res: world.M(1), Create: 1004, BoundNode: "n1"},
 	}
-	s.Prefix = []world.Op{op("NODE_ADD", "n1"), op("NODE_ADD", "n2"), op("APP_ADD", "app1"), op("APP_ADD", "app3"), op("ASK", "a1"), op("SCHEDULE"), op("ASK", "c1"), op("SCHEDULE"), op("ASK", "x1"), op("SCHEDULE")}
+	s.Prefix = []world.Op{op("NODE_ADD", "n1"), op("NODE_ADD", "n2"), op("NODE_ADD_DRAINED", "n3"), op("APP_ADD", "app1"), op("APP_ADD", "app3"), op("ASK", "a1"), op("SCHEDULE"), op("ASK", "c1"), op("SCHEDULE"), op("ASK", "x1"), op("SCHEDULE")}
 	return s
 }
 
